@@ -5,7 +5,7 @@ P=$1; M=$2; C=${3:-$1}; shift 2; shift
 R=/tmp/mutrepo-$P-$M
 git -C /repo worktree add --detach $R HEAD >/dev/null 2>&1
 cd $R && git apply /tmp/mut-out/$P/$M/patch.diff || { echo "APPLY FAILED"; exit 9; }
-cd /verif && VERIF_REPO=$R VERIF_BUILD=/tmp/mutbuild-$P-$M ./check $C "$@" > /tmp/mut-out/$P/$M/check.log 2>&1
+cd /verif && VERIF_EVIDENCE_DIR=/tmp/mut-out/$P/$M VERIF_REPO=$R VERIF_BUILD=/tmp/mutbuild-$P-$M ./check $C "$@" > /tmp/mut-out/$P/$M/check.log 2>&1
 rc=$?
 echo "$P $M check($C) exit=$rc"; grep -E "^VIOLATION|signature:" /tmp/mut-out/$P/$M/check.log | cut -c1-220 | head -4
 git -C /repo worktree remove --force $R; rm -rf /tmp/mutbuild-$P-$M
